@@ -20,11 +20,26 @@ from .model import Model, AnalysisError, REPO
 
 def _load_variants():
     from .variants import VARIANTS
-    return VARIANTS
+    from .props import PROPS
+    out = list(VARIANTS)
+    # behaviour-preserving refactorings written by independent sub-agents (whole patches):
+    # every check must stay silent on them
+    nd = os.path.join(os.path.dirname(os.path.dirname(os.path.abspath(__file__))), 'selftest', 'neutral')
+    if os.path.isdir(nd):
+        for d in sorted(os.listdir(nd)):
+            p = os.path.join(nd, d, 'patch.diff')
+            if os.path.exists(p):
+                out.append(dict(id='neutral-' + d, props=sorted(PROPS), patch=p, expect=[]))
+    return out
 
 
 def apply_variant(root, v):
     """returns False if the anchor is missing"""
+    if 'patch' in v:
+        import subprocess
+        p = subprocess.run('patch -p1 -s --dry-run < %s && patch -p1 -s < %s' % (v['patch'], v['patch']),
+                           shell=True, cwd=root, capture_output=True)
+        return p.returncode == 0
     edits = v['edits'] if 'edits' in v else [(v['file'], v['old'], v['new'])]
     for file, old, new in edits:
         p = os.path.join(root, file)
@@ -52,11 +67,12 @@ def run_variant(args):
             shutil.copy(os.path.join(REPO, 'list-of-macros.md'), tmp)
         if not apply_variant(tmp, v):
             return (v['id'], 'skipped', [])
-        try:
-            compile(open(os.path.join(tmp, (v.get('file') or v['edits'][0][0])),
-                         encoding='utf-8').read(), 'x', 'exec')
-        except SyntaxError as e:
-            return (v['id'], 'error', ['variant does not compile: %s' % e])
+        if 'patch' not in v:
+            try:
+                compile(open(os.path.join(tmp, (v.get('file') or v['edits'][0][0])),
+                             encoding='utf-8').read(), 'x', 'exec')
+            except SyntaxError as e:
+                return (v['id'], 'error', ['variant does not compile: %s' % e])
         rdefs.reset_cache()
         fired = set()
         errs = []
